@@ -360,6 +360,15 @@ def worker(spec):
                     problems.append((path + (i,), "child is_async wrong for %s" % meth))
                 if ("." + meth + "(") not in (c.description or ""):
                     problems.append((path + (i,), "description %r does not name %s" % (c.description, meth)))
+                # entries are addressed through their stack: <stack's name>[index], at every nesting level
+                # ("_" when the stack itself has no name)
+                base = ctx.varname or "_"
+                if c.varname != "%s[%d]" % (base, i):
+                    problems.append((path + (i,), "child varname %r, expected %r" % (c.varname, "%s[%d]" % (base, i))))
+                elif (base + "." + meth + "(") not in (c.description or ""):
+                    problems.append((path + (i,), "description %r does not go through %r" % (c.description, base)))
+                elif len(path) >= 2:
+                    res.count("nested_stack_entries_name_checked")
                 if sub is not None:
                     check(c, sub, path + (i,))
 
